@@ -99,6 +99,7 @@ pub fn worker_loop(target_fn: TargetFn) -> i32 {
     let mut stdin = stdin.lock();
     let stdout = std::io::stdout();
     let mut stdout = stdout.lock();
+    let mut runners: std::collections::HashMap<usize, std::sync::mpsc::Sender<(u8, u8, Vec<u8>, std::sync::mpsc::Sender<(Result<(bool, u8, String), String>, u64, u64)>)>> = std::collections::HashMap::new();
     loop {
         let mut head = [0u8; 10];
         if stdin.read_exact(&mut head).is_err() {
@@ -114,26 +115,38 @@ pub fn worker_loop(target_fn: TargetFn) -> i32 {
         }
         let (tx, rx) = std::sync::mpsc::channel();
         let cpu0 = process_cpu_us();
-        let h = std::thread::Builder::new()
-            .stack_size(stack_mb.max(1) << 20)
-            .spawn(move || {
-                counters_reset();
-                ENABLED.store(true, Ordering::SeqCst);
-                let r = std::panic::catch_unwind(|| target_fn(target, mode, &data));
-                ENABLED.store(false, Ordering::SeqCst);
-                let peak = PEAK.load(Ordering::Relaxed);
-                let ms = MAX_SINGLE.load(Ordering::Relaxed);
-                let _ = tx.send((r.map_err(|e| {
-                    if let Some(s) = e.downcast_ref::<&str>() {
-                        s.to_string()
-                    } else if let Some(s) = e.downcast_ref::<String>() {
-                        s.clone()
-                    } else {
-                        "<panic>".to_string()
+        // persistent runner thread per stack size (a fresh thread per case costs an mmap/munmap pair)
+        let runner = runners.entry(stack_mb.max(1)).or_insert_with(|| {
+            let (jtx, jrx) = std::sync::mpsc::channel::<(u8, u8, Vec<u8>, std::sync::mpsc::Sender<(Result<(bool, u8, String), String>, u64, u64)>)>();
+            std::thread::Builder::new()
+                .stack_size(stack_mb.max(1) << 20)
+                .spawn(move || {
+                    while let Ok((target, mode, data, tx)) = jrx.recv() {
+                        counters_reset();
+                        ENABLED.store(true, Ordering::SeqCst);
+                        let r = std::panic::catch_unwind(|| target_fn(target, mode, &data));
+                        ENABLED.store(false, Ordering::SeqCst);
+                        let peak = PEAK.load(Ordering::Relaxed);
+                        let ms = MAX_SINGLE.load(Ordering::Relaxed);
+                        let _ = tx.send((
+                            r.map_err(|e| {
+                                if let Some(s) = e.downcast_ref::<&str>() {
+                                    s.to_string()
+                                } else if let Some(s) = e.downcast_ref::<String>() {
+                                    s.clone()
+                                } else {
+                                    "<panic>".to_string()
+                                }
+                            }),
+                            peak,
+                            ms,
+                        ));
                     }
-                }), peak, ms));
-            })
-            .unwrap();
+                })
+                .unwrap();
+            jtx
+        });
+        let _ = runner.send((target, mode, data, tx));
         // wait with a CPU watchdog
         let result = loop {
             match rx.recv_timeout(std::time::Duration::from_millis(250)) {
@@ -169,7 +182,6 @@ pub fn worker_loop(target_fn: TargetFn) -> i32 {
             // the runaway thread cannot be stopped: leave
             std::process::exit(3);
         }
-        let _ = h.join();
     }
 }
 
